@@ -17,6 +17,25 @@ def tcp_part(ctx):
             ctx.report.prop_failures.append(dict(f, no_shrink=True, replay_with="c18"))
 
 
+def usb_part(ctx):
+    """the same over the USB transport (fake usb1 backend in a subprocess): write cases with short / failing backend writes, and sessions"""
+    from units import c20
+    rep = ctx.report
+    before = len(rep.prop_failures)
+    cases = [c for c in c20.gen_grid(ctx.rng) + c20.gen_random(ctx.rng, int(40 * ctx.budget)) if any((op[0] if isinstance(op, (list, tuple)) else None) == "write" for op in c.get("ops", []))]
+    for i in range(0, len(cases), 400):
+        c20.check_cases(ctx, cases[i:i + 400])
+    c20.check_sessions(ctx, [c20.gen_session(ctx.rng) for _ in range(max(2, int(4 * ctx.budget)))])
+    for f in rep.prop_failures[before:]:
+        f["no_shrink"] = True
+        f["replay_with"] = "c20"
+
+
+def _replay_c20(ctx, fl):
+    from units import c20
+    return c20.replay(ctx, dict(failure=fl))
+
+
 def _replay_c18(ctx, fl):
     from units import c18
     return c18.replay(ctx, dict(failure=fl))
@@ -24,7 +43,13 @@ def _replay_c18(ctx, fl):
 
 from units import mk as _mk
 _mk.REPLAYERS["c18"] = _replay_c18
+_mk.REPLAYERS["c20"] = _replay_c20
+
+
+def _extra(ctx):
+    tcp_part(ctx)
+    usb_part(ctx)
 Unit([("shortwrite", scen.gen_short_writes, 1)], (oracles.o_c02, oracles.o_c07, oracles.o_c01, oracles.o_c05, oracles.o_c04) + COMMON,
      "every scenario family over transports that accept {1 byte, 1..25 bytes, a header split k/24-k, random, everything-but-report-None} per write call; "
      "the bytes the peer received must parse as whole well-formed messages (Lean parser) and carry exact file contents/results. Non-trivial/distinct as for C01.",
-     120, 3000, extra_run=tcp_part).export(globals())
+     120, 3000, extra_run=_extra).export(globals())
